@@ -76,6 +76,7 @@ def pick_case(sw_type: str, variant: str) -> Dict[str, str]:
 
     clean : the three bound names own pairwise disjoint ports (and background software sharing one of
             those ports is taken out of the way in the set-up, see ``build_case``).
+    listen: as clean, and the bound partner of the software under test listens on its ports as well.
     shared: the bound names share ports wherever the shipped software does, background left alone."""
     st = static_table()
     svc_c = ["database-service", "web-server", "ntp-server", "ftp-server"]
@@ -116,7 +117,7 @@ def build_case(sw_type: str, variant: str, node_kind: str, rd: int, idur: int, d
     and (clean variant) take background software that shares a port with a bound name out of the way
     through the request API.  Returns (game, dut, peer, case)."""
     st = static_table()
-    case = pick_case(sw_type, variant)
+    case = pick_case(sw_type, "clean" if variant == "listen" else variant)
     probe = scenarios.build(scenarios.base_cfg([scenarios.host("x", "192.168.9.2", node_kind)], []))
     system = set(probe.simulation.network.get_node_by_hostname("x").software_manager.software)
     services = [{"type": case["svc"]}] if (case["svc"] not in system or dup_system) else []
@@ -137,8 +138,14 @@ def build_case(sw_type: str, variant: str, node_kind: str, rd: int, idur: int, d
             sw.install_duration = idur
     if case["app2"] in dut.software_manager.software:  # bound to system software: start from absent
         game.simulation.apply_request(["network", "node", DUT, "software_manager", "application", "uninstall", case["app2"]])
+    listener = ""
+    if variant == "listen":
+        # the bound partner of the software under test additionally listens on that software's ports (the
+        # documented `listen_on_ports` option, set the way game.py sets it: as the attribute)
+        listener = case["app"] if st[sw_type]["kind"] == "service" else case["svc"]
+        dut.software_manager.software[listener].listen_on_ports = set(st[sw_type]["ports"])
     removed = []
-    if variant == "clean":
+    if variant in ("clean", "listen"):
         bound = set(case.values())
         tports = set()
         for n in bound:
@@ -153,7 +160,7 @@ def build_case(sw_type: str, variant: str, node_kind: str, rd: int, idur: int, d
             removed.append(name)
     peer.ping(DUT_IP, pings=1)  # warm ARP both ways
     case = dict(case, sw_type=sw_type, variant=variant, node_kind=node_kind, rd=rd, id=idur, removed=removed,
-                dup_system=dup_system)
+                dup_system=dup_system, listener=listener)
     return game, dut, peer, case
 
 
@@ -280,10 +287,9 @@ class Recorder:
 
         def after_gate(sw, tok, ret, exc, *a, **k):
             if ret is False:
-                for r in reversed(rec._stack):
+                for r in rec._stack:  # every active receive() of this object (an inherited receive is wrapped per class)
                     if r["obj"] is sw:
                         r["gate_refused"] = True
-                        break
 
         for info in st.values():
             cls = info["cls"]
